@@ -197,15 +197,20 @@ func (g *gen) genError(typs []types.Type) error {
 	p.In()
 	p.P("return func(%s) %s {", strings.Join(firstVarTypes, ", "), wrap(strings.Join(resultStrs[len(resultStrs)-1], ", ")))
 	p.In()
+	// withErr appends the error to the values, of which there can be none, when a function only returns an error.
+	withErr := func(values []string, err string) string {
+		return strings.Join(append(append([]string{}, values...), err), ", ")
+	}
 	for i := range params {
-		p.P("%s, err%d := %s(%s)", strings.Join(vars[i+1], ", "), i, fs[i], strings.Join(vars[i], ", "))
-		p.P("if err%d != nil {", i)
+		errStr := "err" + strconv.Itoa(i)
+		p.P("%s := %s(%s)", withErr(vars[i+1], errStr), fs[i], strings.Join(vars[i], ", "))
+		p.P("if %s != nil {", errStr)
 		p.In()
-		p.P("return %s, err%d", strings.Join(zeros, ", "), i)
+		p.P("return %s", withErr(zeros, errStr))
 		p.Out()
 		p.P("}")
 	}
-	p.P("return %s, nil", strings.Join(vars[len(vars)-1], ", "))
+	p.P("return %s", withErr(vars[len(vars)-1], "nil"))
 	p.Out()
 	p.P("}")
 	p.Out()
